@@ -111,7 +111,7 @@ theorem programOf_ifRange (c : Circuit) (hb : addedNames c.ops Gen.gateNameToQas
 a name of the exporter's base table (no definition is emitted), on at least one qubit. -/
 theorem roundtrip_den_base (c : Circuit) (hc : GoodCircuit c) (hN : 0 < c.N)
     (hb : addedNames c.ops Gen.gateNameToQasm = []) :
-    ∃ lines P iops A B, exportCircuit c = .ok lines ∧ parseLines lines = some P ∧
+    ∃ lines P iops A B, exportCore c = .ok lines ∧ parseLines lines = some P ∧
       importProgram P = .ok (c.N, (cregsOf c.numCbits).total, iops) ∧
       denX c.N (c.ops.filterMap xOfOp) = some A ∧ denX c.N (iops.filterMap xOfIOp) = some B ∧
       PhaseEqN B A := by
